@@ -73,11 +73,12 @@ def norm_code_repr(t):
 
 
 def norm_set_order(t):
-    # D6 is about *string* members (str hashing differs between hosts <= 3.10 and >= 3.11); the order of a set
-    # of ints, floats, None ... is the same on every host, so such sets are left alone
+    # D6 is about members whose hash differs between hosts: strings (str hashing differs between hosts <= 3.10
+    # and >= 3.11) and None / Ellipsis (address-based hashes; None until 3.11).  The order of a set of ints, floats,
+    # complex numbers, tuples of those ... is the same on every host, so such sets are left alone
     def sub(m):
         body = m.group(1)
-        if "'" not in body and '"' not in body:
+        if "'" not in body and '"' not in body and "None" not in body and "Ellipsis" not in body:
             return m.group(0)
         items = body.split(", ")
         return "{" + ", ".join(sorted(items)) + "}"
@@ -211,7 +212,12 @@ def _one_arm(job, arm):
         for fmt in job.get("formats", []):
             buf = io.StringIO()
             try:
-                disassemble_file(job["name"], buf, fmt)
+                ret = disassemble_file(job["name"], buf, fmt)
+                if fmt == "xasm" and isinstance(ret, tuple) and len(ret) == 8:
+                    # the code object handed back to the caller must be the decoded one, whatever the lister did
+                    rver = tuple(ret[2][:2]) if isinstance(ret[2], tuple) else (0, 0)
+                    out["xasm_returned_tree"] = canon.digest(canon.norm_text(json.dumps(
+                        canon.canon_value(ret[1], rver, with_types=False), sort_keys=True)))
                 t, removed = strip_banner(buf.getvalue())
                 t = canon.norm_text(t)
                 texts[fmt] = text_digests(t)
